@@ -4,6 +4,7 @@ from __future__ import annotations
 
 import ast
 
+from sa.paths import declared_nonnull, enumerate_paths
 from sa.astutil import (
     arg_or_kw,
     call_name,
@@ -100,7 +101,8 @@ def r1_bounded_write(ctx):
         mdef = [val for s_, val in local_defs(f, m) if val is not None]
         ok = len(mdef) == 1
         if ok:
-            cj = {norm(x) for x in _and_terms(mdef[0])}
+            keep_ = {s_ for s_, _ in masks.values() if s_}
+            cj = {norm(x) for x in _and_terms(expand(f, mdef[0], _seen=keep_))}
             need = {f"{src} >= 0", f"{src} < {size}"}
             alt = {f"0 <= {src}", f"{src} < {size}"}
             ok = need <= cj or alt <= cj or f"0 <= {src} < {size}" in cj
@@ -214,44 +216,50 @@ def r3_representation_switch(ctx):
     d = ctx.func(f"{CH}.add_charge_dataframe")
     gd = ctx.cfg(d)
     p = d.params[1]
-    sts = [s for s, t in stores(d.node, lambda t: dotted(t) == "self._frame")]
-    ok = len(sts) == 1 and isinstance(sts[0].value, ast.Name)
-    if not ok:
-        ctx.fail(d.qual + "#store", "the cluster table is not stored once from the merged table", where=d, node=sts[0] if sts else d.node)
-    else:
-        nf = sts[0].value.id
-        defs = local_defs(d, nf)
-        seen = {"convert": False, "plain": False, "existing": False}
-        for s_, val in defs:
-            ts = [(norm(t), pol) for t, pol in enclosing_tests(s_)]
-            txt = norm(val)
-            if isinstance(val, ast.Call) and call_name(val).endswith("concat") and isinstance(val.args[0], ast.List):
-                parts = [norm(expand(d, x, depth=1)) for x in val.args[0].elts]
-                if any("convert_array_to_df" in x for x in parts):
-                    okc = len(parts) == 2 and "convert_array_to_df" in parts[0] and parts[1] == p and ("self._frame.empty", True) in ts and any("self.array == 0" in t or "self._array == 0" in t for t, _ in ts)
-                    seen["convert"] = okc
-                    ctx.check(okc, d.qual + "#array-first", "existing array content is converted and kept in front of the new clusters" if okc else f"array content is not carried over when clusters arrive: concat({parts}) under {ts}", where=d, node=s_)
-                elif parts == ["self._frame", p]:
-                    oke = ("self._frame.empty", False) in ts
-                    seen["existing"] = oke
-                    ctx.check(oke, d.qual + "#append", "new clusters appended to the existing table" if oke else f"append happens under {ts}", where=d, node=s_)
-                else:
-                    ctx.fail(d.qual + "#concat", f"unexpected merge {parts}", where=d, node=s_)
-            elif dotted(val) == p:
-                okp = ("self._frame.empty", True) in ts and any(("== 0" in t and pol) or ("== 0" in t and "not " in t and not pol) for t, pol in ts)
-                seen["plain"] = okp
-                ctx.check(okp, d.qual + "#plain", "new clusters taken as the table only when table and array are both empty" if okp else f"existing content is discarded: `{nf} = {p}` under {ts}", where=d, node=s_)
-            else:
-                ctx.fail(d.qual + "#merge", f"unexpected table source {txt[:60]}", where=d, node=s_)
-        for k_, v in seen.items():
-            if not v:
-                ctx.fail(d.qual + f"#case:{k_}", f"case `{k_}` of the representation switch is missing", where=d, node=sts[0])
-        cd = [val for s_, val in local_defs(d, "df") if val is not None]
-        if cd:
-            c = cd[0]
-            want = {"array": ("self.array", "self._array"), "num_cols": ("self._geo.col",), "num_rows": ("self._geo.row",), "pixel_vertical_size": ("self._geo.pixel_vert_size",), "pixel_horizontal_size": ("self._geo.pixel_horz_size",)}
-            okw = isinstance(c, ast.Call) and all(kw(c, k_) is not None and dotted(kw(c, k_)) in v for k_, v in want.items())
-            ctx.check(okw, d.qual + "#convert-args", "conversion wired rows<->rows, cols<->cols, vertical<->vertical" if okw else "array-to-cluster conversion arguments are cross-wired", where=d, node=c)
+    # representation switch, decided per path (sa/paths.py): what is stored into self._frame when
+    #   clusters exist              -> concat([self._frame, new])
+    #   no clusters, array all zero -> new
+    #   no clusters, array non-zero -> concat([convert_array_to_df(self.array, geometry...), new])
+    want_conv = {"array": ("self.array", "self._array"), "num_cols": ("self._geo.col",), "num_rows": ("self._geo.row",), "pixel_vertical_size": ("self._geo.pixel_vert_size",), "pixel_horizontal_size": ("self._geo.pixel_horz_size",)}
+    seen = {"convert": None, "plain": None, "existing": None}
+    paths = [q for q in enumerate_paths(d.node.body, nonnull=declared_nonnull(ctx.R, d)) if q.exit in ("fall", "return")]
+    for q in paths:
+        st_eff = [e for e in q.effects if e.kind == "store" and e.target == "self._frame"]
+        ts = q.cond_texts()
+        if len(st_eff) != 1:
+            ctx.fail(d.qual + "#store", f"the cluster table is stored {len(st_eff)} times on path {ts}", where=d, node=st_eff[0].node if st_eff else d.node)
+            continue
+        val = st_eff[0].value
+        empty = q.holds("self._frame.empty")
+        zero = next((pol for t, pol in ts if "== 0" in t and ("self.array" in t or "self._array" in t)), None)
+        parts = None
+        if isinstance(val, ast.Call) and call_name(val).endswith("concat") and val.args and isinstance(val.args[0], ast.List):
+            parts = val.args[0].elts
+        case = "existing" if empty is False else ("plain" if empty and zero else "convert" if empty and zero is False else None)
+        if case is None:
+            ctx.fail(d.qual + "#switch", f"the table is stored on a path that does not decide clusters-present / array-empty: {ts}", where=d, node=st_eff[0].node)
+            continue
+        if case == "existing":
+            ok = parts is not None and [norm(x) for x in parts] == ["self._frame", p]
+            why = "new clusters appended to the existing table" if ok else f"with clusters present the table becomes {norm(val)[:80]}: existing clusters are not kept in front of the new ones"
+            key = "#append"
+        elif case == "plain":
+            ok = dotted(val) == p
+            why = "new clusters taken as the table only when table and array are both empty" if ok else f"with nothing stored yet the table becomes {norm(val)[:80]}"
+            key = "#plain"
+        else:
+            ok = parts is not None and len(parts) == 2 and isinstance(parts[0], ast.Call) and call_name(parts[0]).endswith("convert_array_to_df") and norm(parts[1]) == p
+            why = "existing array content is converted and kept in front of the new clusters" if ok else f"array content is not carried over when clusters arrive: table becomes {norm(val)[:90]}"
+            key = "#array-first"
+            if ok:
+                c_ = parts[0]
+                okw = all(kw(c_, k_) is not None and dotted(kw(c_, k_)) in v for k_, v in want_conv.items())
+                ctx.check(okw, d.qual + "#convert-args", "conversion wired rows<->rows, cols<->cols, vertical<->vertical" if okw else "array-to-cluster conversion arguments are cross-wired", where=d, node=st_eff[0].node)
+        seen[case] = ok if seen[case] is None else (seen[case] and ok)
+        ctx.check(ok, d.qual + key, why, where=d, node=st_eff[0].node, facts={"path": [f"{t}={pol}" for t, pol in ts]})
+    for k_, v in seen.items():
+        if v is None:
+            ctx.fail(d.qual + f"#case:{k_}", f"case `{k_}` of the representation switch is missing", where=d, node=d.node)
     col = [i for i in raising_ifs(d.node) if "columns" in norm(i.test)]
     ctx.check(bool(col), d.qual + "#columns", "tables with other columns are rejected" if col else "column check missing", where=d, node=col[0] if col else d.node)
     # convert_array_to_df
